@@ -197,8 +197,27 @@ def explore(tier, seed):
                             if f and f["key"] not in seen:
                                 seen.add(f["key"])
                                 fails.append(f)
+    # two division-like terms over the SAME linear numerator in one expression: the flattener reuses the local it introduced for the first quotient
+    # (also when the second term only has the gcd-reduced quotient in common with the first)
+    import math
+
+    for a in A_:
+        for c in ((-1, 0, 2) if tier == "quick" else C_):
+            for k in K_:
+                lin = ("+", ("*", ("d", 0), ("c", a), True), ("c", c))
+                g = math.gcd(abs(a), k) if c % math.gcd(abs(a), k) == 0 else 1
+                fams = [("+", (o1, lin, ("c", k), True), (o2, lin, ("c", k), False)) for o1 in ("floordiv", "ceildiv", "mod") for o2 in ("floordiv", "ceildiv", "mod")]
+                if g > 1:
+                    red = ("+", ("*", ("d", 0), ("c", a // g), True), ("c", c // g))
+                    fams += [("+", ("floordiv", red, ("c", k // g), True), (o2, lin, ("c", k), True)) for o2 in ("floordiv", "ceildiv", "mod")]
+                for t in fams:
+                    cases += 1
+                    f = check_tree(t)
+                    if f and f["key"] not in seen:
+                        seen.add(f["key"])
+                        fails.append(f)
     return {"cases": cases, "failures": fails, "exhaustive": False,
             "bound": f"{n} seeded expression trees of depth <= 3 over d0, d1, s0 and constants (+, -, neg, * by constants, floordiv/ceildiv/mod by positive "
                      f"constants, int and AffineExpr operands); build / simplify / replace_dims_and_symbols / compose / print+parse, each evaluated on "
                      f"all {len(ENVS)} assignments of a box against an independent evaluator; plus the exhaustive linear family (a*d0 + b*s0 + c) "
-                     f"floordiv/ceildiv/mod k over small coefficient grids"}
+                     f"floordiv/ceildiv/mod k over small coefficient grids, and sums of two division-like terms over the same (or gcd-reduced) linear numerator"}
